@@ -21,6 +21,7 @@ from . import prog as P
 PROP = 'C09'
 LEVEL = 'exploration'
 STEP_UNIT = 'call-back invocations (conditions, branch markers, references)'
+CHUNK = 16      # consecutive runs per forked child (core.worker)
 CASE_TIMEOUT = 300
 TIERS = {'quick': (24000, 170), 'thorough': (1200000, 2400)}
 PROBES = ['computed_mapping_key_tested', 'seqobj_condition_value',
